@@ -682,12 +682,17 @@ pub fn main(args: &Args) -> ! {
         for m in &limits {
             ctx.check_request_bytes(&b, *m, "scrape n hashes vs limit");
         }
-        if n <= 3 {
-            for extra in 1..20 {
-                let mut x = b.clone();
-                x.extend(std::iter::repeat(0xab).take(extra));
-                ctx.check_request_bytes(&x, 70, "hash list not a multiple of 20");
+        // ragged lists at every length, against every limit (a list cut to the limit before its length is checked
+        // would hide the ragged tail): 1 and 19 surplus bytes everywhere, every surplus 1..=19 near the boundaries
+        let extras: Vec<usize> = if n <= 3 || (69..=72).contains(&n) || (254..=257).contains(&n) { (1..20).collect() } else { vec![1, 19] };
+        for extra in extras {
+            let mut x = b.clone();
+            x.extend(std::iter::repeat(0xab).take(extra));
+            for m in &limits {
+                ctx.check_request_bytes(&x, *m, "hash list not a multiple of 20");
             }
+        }
+        if n <= 3 {
             for t in 0..b.len() {
                 ctx.check_request_bytes(&b[..t], 70, "truncated scrape");
             }
